@@ -513,6 +513,37 @@ func (m c13) Run(c *core.Ctx) {
 			}
 		}
 	}
+	// every builtin name, disabled alone and together with all others: a bare reference in the main script, in a nested
+	// function and in a source module is rejected
+	for _, name := range all {
+		idx++
+		if idx%c.NBatch != c.Batch {
+			continue
+		}
+		name := name
+		if !c.Begin(func() string { return "each-name " + name }) {
+			continue
+		}
+		for _, disabled := range [][]string{{name}, all} {
+			for _, src := range []string{"return " + name, "f := func() {\n  return func() { return " + name + " }\n}\nreturn f()()", "return import(\"m\")"} {
+				for _, noopt := range []bool{true, false} {
+					mm := ugo.NewModuleMap()
+					mm.AddSourceModule("m", []byte("x := "+name+"\nreturn x\n"))
+					cr := safeCompile([]byte(src), ugo.CompilerOptions{SymbolTable: c13symtab(disabled), ModuleMap: mm, NoOptimize: noopt})
+					c.Count("each_name_compiles")
+					if cr.panicv != "" {
+						c.Violation("C13|compile-panic|"+cr.ptop, "Compile panics: "+cr.panicv, c13wit{Disabled: []string{name}, Why: "each-name " + src})
+						continue
+					}
+					if cr.err == nil {
+						names, _ := scanGetBuiltin(cr.bc)
+						c.Violation("C13|disabled-reference-accepted|each|"+name, fmt.Sprintf("a reference to the disabled builtin %q compiles (GETBUILTIN operands: %v)", name, names), c13wit{Disabled: disabled, Why: "each-name: " + src, Opt: !noopt})
+					}
+				}
+			}
+		}
+		c.Nontrivial("each-name " + name)
+	}
 	// fixed probes: shadowing and module cases
 	probes := []*Program{
 		{Src: "global L\nlen := func(x) { return 99 }\nreturn len(\"abc\")"},
